@@ -2,9 +2,12 @@ package checks
 
 import (
 	"bytes"
+	"errors"
 	"fmt"
+	"io"
 	"net/netip"
 	"sync"
+	"sync/atomic"
 	"time"
 
 	"github.com/pion/ice/v4"
@@ -30,6 +33,10 @@ type c07Side struct {
 	reader  bool
 	gate    chan struct{} // non-nil: the application is not reading for the moment (the reader waits here between reads)
 	flooded bool
+	// smallNext: the reader's next Read passes a buffer of this many bytes (0 = a large one); short[i] marks
+	// reads that came back with io.ErrShortBuffer (the datagram's first bytes, which count as returned)
+	smallNext atomic.Int32
+	short     map[int]bool
 
 	expect      [][]byte // delivered non-STUN datagrams from known remotes, in delivery order
 	expectSrc   []netip.AddrPort
@@ -305,10 +312,21 @@ func (o *c07Oracle) startReaders() {
 		s.reader = true
 		s := s
 		go func() {
-			buf := make([]byte, 9000)
+			big := make([]byte, 9000)
 			for {
+				buf := big
+				if k := s.smallNext.Swap(0); k > 0 {
+					buf = big[:k]
+				}
 				n, err := s.ag.Conn.Read(buf)
 				s.mu.Lock()
+				if errors.Is(err, io.ErrShortBuffer) {
+					if s.short == nil {
+						s.short = map[int]bool{}
+					}
+					s.short[len(s.reads)] = true
+					err = nil
+				}
 				if err != nil {
 					s.readErr = err
 					s.mu.Unlock()
@@ -334,6 +352,10 @@ func (o *c07Oracle) check() {
 		}
 		s.mu.Lock()
 		reads := s.reads
+		short := map[int]bool{}
+		for k := range s.short {
+			short[k] = true
+		}
 		s.mu.Unlock()
 		if len(reads) > len(s.expect) {
 			c.Failf("C07/reader-got-unexpected-packet", "%s reader returned %d packets, only %d delivered datagrams qualify; extra: %q",
@@ -349,6 +371,15 @@ func (o *c07Oracle) check() {
 			if stun.IsMessage(r) {
 				c.Failf("C07/reader-got-stun", "%s reader returned a STUN message", s.ag.Name)
 				return
+			}
+			if short[i] {
+				// the buffer was too small: the first bytes of the datagram were returned (and count as returned)
+				if len(r) > len(s.expect[i]) || !bytes.Equal(r, s.expect[i][:len(r)]) {
+					c.Failf("C07/reader-payload-mismatch", "%s reader packet %d (short buffer) = %q, not a prefix of the delivered datagram %q", s.ag.Name, i, trunc(r), trunc(s.expect[i]))
+					return
+				}
+				c.Probe("short-read")
+				continue
 			}
 			if !bytes.Equal(r, s.expect[i]) {
 				c.Failf("C07/reader-payload-mismatch", "%s reader packet %d = %q, delivered datagram was %q (from %v)", s.ag.Name, i, trunc(r), trunc(s.expect[i]), s.expectSrc[i])
@@ -653,6 +684,10 @@ func (o *c07Oracle) injectData() {
 	default:
 		src, kind = netip.AddrPortFrom(netip.MustParseAddr("192.0.2.99"), uint16(43000+c.T.Choose(2, "p"))), "unknown"
 	}
+	if c.T.Bias(1, 6, "small-read-buffer") {
+		// the application's next Read passes a buffer that may be too small for what arrives
+		s.smallNext.Store(int32([]int{1, 2, 16}[c.T.Choose(3, "smallbuf")]))
+	}
 	payload, isStun := o.payload()
 	if isStun {
 		// a datagram the classifier takes for STUN (magic cookie in place) whose body is not a decodable STUN
@@ -708,13 +743,17 @@ func (o *c07Oracle) flood() {
 	// reconcile: the reads from `first` on must be a subsequence of what arrived
 	s.mu.Lock()
 	reads := append([][]byte(nil), s.reads...)
+	shortReads := map[int]bool{}
+	for k := range s.short {
+		shortReads[k] = true
+	}
 	s.mu.Unlock()
 	var keep [][]byte
 	var keepSrc []netip.AddrPort
 	j := first
 	shed := 0
 	for i := first; i < len(reads); i++ {
-		for j < len(s.expect) && !bytes.Equal(s.expect[j], reads[i]) {
+		for j < len(s.expect) && !bytes.Equal(s.expect[j], reads[i]) && !(shortReads[i] && bytes.HasPrefix(s.expect[j], reads[i])) {
 			if !bytes.HasPrefix(s.expect[j], []byte("\x40flood-")) {
 				c.Failf("C07/reader-missed-packet", "%s: while its reader was stalled by a flood an ordinary datagram (%q) was lost or overtaken", s.ag.Name, trunc(s.expect[j]))
 				return
